@@ -10,9 +10,10 @@ A 94-column line is reduced to what the dispatcher looks at (`Rec`): its first c
 header whether `parseBH` takes the IAT branch and whether the SEC code is ADV, for an entry the addenda record indicator
 (column 79 in all three entry layouts), for an addenda record the slot its type code (columns 2-3, and 4-6 for 98/99)
 selects in a standard entry and in an IAT entry, for a `9` record whether it starts with `99` (blocking filler).  The
-outcome of every `maybeValidate(record)` call is an input bit (one per record type the line may be parsed as), and so is
-the outcome of `maybeValidate(batch)` when a batch control closes a batch (`batchOK`).  `id` is an opaque payload — the
-line itself; the driver uses the line number, which the real Reader stores in every record's `LineNumber`.
+outcome of every `maybeValidate(record)` call is an input, kept apart from the record (`Bits`: one flag per record type
+the line may be parsed as), and so is the outcome of `maybeValidate(batch)` when a batch control closes a batch (`b`).
+`id` is an opaque payload — the line itself; the driver uses the line number, which the real Reader stores in every
+record's `LineNumber`.
 
 Quirks mirrored on purpose (each is exercised by the `reader` correspondence stream):
 * a record that fails validation is parsed but not attached (entries, addenda, batch headers), except controls and the
@@ -40,15 +41,28 @@ structure Slot where
 deriving DecidableEq, Repr
 
 inductive Rec where
-  | fh (ok : Bool) (id : Nat)
-  | bh (kind : BKind) (ok : Bool) (newOK : Bool) (id : Nat)
-  | ed (ind : Bool) (okStd okAdv okIat : Bool) (id : Nat)
-  | ad (stdSlot iatSlot : Option Slot) (okStd okAdv okIat : Bool) (id : Nat)
-  | bc (ok okAdv : Bool) (batchOK : Bool) (id : Nat)
-  | fc (ok okAdv : Bool) (id : Nat)
+  | fh (id : Nat)
+  | bh (kind : BKind) (id : Nat)
+  | ed (ind : Bool) (id : Nat)
+  | ad (stdSlot iatSlot : Option Slot) (id : Nat)
+  | bc (id : Nat)
+  | fc (id : Nat)
   | filler
   | unknown (id : Nat)
 deriving DecidableEq, Repr
+
+/-- outcomes of the validations the Reader runs on a record, by the type it parses the line as:
+file header `v1`; batch header `v1` (`BatchHeader.Validate`), `v2` (`NewBatch` succeeds), `v3` (`IATBatchHeader.Validate`);
+entry and addenda `v1` standard / `v2` ADV / `v3` IAT; batch control `v1` (`BatchControl`), `v2` (`ADVBatchControl`),
+`b` (the batch it closes validates); file control `v1` (`FileControl`), `v2` (`ADVFileControl`) -/
+structure Bits where
+  v1 : Bool
+  v2 : Bool
+  v3 : Bool
+  b : Bool
+deriving DecidableEq, Repr
+
+def Bits.all : Bits := ⟨true, true, true, true⟩
 
 inductive Err where
   | dupHeader | consecutiveBH | recInvalid | newBatch | entryOutside | addendaOutsideEntry
@@ -125,33 +139,34 @@ def closePending (s : St) : Except Err St :=
               else .ok { s with batches := s.batches ++ [b], cur := none }
 
 /-- one `parseLine` -/
-def step (s : St) (r : Rec) : St :=
+def step (s : St) (r : Rec) (v : Bits) : St :=
   match r with
-  | .fh ok _ =>
+  | .fh _ =>
     match s.header with
     | some _ => s.err .dupHeader
-    | none => let s' := { s with header := some r }; if ok then s' else s'.err .recInvalid
-  | .bh kind ok newOK _ =>
+    | none => let s' := { s with header := some r }; if v.v1 then s' else s'.err .recInvalid
+  | .bh kind _ =>
     match closePending s with
     | .error e => s.err e
     | .ok s1 =>
-      if !ok then s1.err .recInvalid
-      else if kind == .iat then { s1 with iat := some ⟨.iat, r, [], none⟩ }
-      else if !newOK then s1.err .newBatch
+      if kind == .iat then
+        if v.v3 then { s1 with iat := some ⟨.iat, r, [], none⟩ } else s1.err .recInvalid
+      else if !v.v1 then s1.err .recInvalid
+      else if !v.v2 then s1.err .newBatch
       else { s1 with cur := some ⟨kind, r, [], none⟩ }
-  | .ed ind okStd okAdv okIat _ =>
+  | .ed ind _ =>
     match s.iat with
-    | some ib => if okIat then { s with iat := some (addEntry ib r ind) } else s.err .recInvalid
+    | some ib => if v.v3 then { s with iat := some (addEntry ib r ind) } else s.err .recInvalid
     | none =>
       match s.cur with
       | none => s.err .entryOutside
       | some b =>
-        let ok := if b.kind == .adv then okAdv else okStd
+        let ok := if b.kind == .adv then v.v2 else v.v1
         if ok then { s with cur := some (addEntry b r ind) } else s.err .recInvalid
-  | .ad stdSlot iatSlot okStd okAdv okIat _ =>
+  | .ad stdSlot iatSlot _ =>
     match s.cur with
     | some b =>
-      let res := if b.kind == .adv then addendaInto b (some advSlot) okAdv r else addendaInto b stdSlot okStd r
+      let res := if b.kind == .adv then addendaInto b (some advSlot) v.v2 r else addendaInto b stdSlot v.v1 r
       match res with
       | .ok b' => { s with cur := some b' }
       | .error e => s.err e
@@ -159,18 +174,18 @@ def step (s : St) (r : Rec) : St :=
       match s.iat with
       | none => s.err .addendaOutsideEntry
       | some ib =>
-        match addendaInto ib iatSlot okIat r with
+        match addendaInto ib iatSlot v.v3 r with
         | .ok b' => { s with iat := some b' }
         | .error e => s.err e
-  | .bc ok okAdv batchOK _ =>
+  | .bc _ =>
     match s.cur with
     | some b =>
       let b' := { b with control := some r }
-      let okc := if b.kind == .adv then okAdv else ok
+      let okc := if b.kind == .adv then v.v2 else v.v1
       if !okc then { s with cur := some b' }.err .recInvalid
       else
         let s' := { s with batches := s.batches ++ [b'], cur := none }
-        if batchOK then s' else s'.err .batchInvalid
+        if v.b then s' else s'.err .batchInvalid
     | none =>
       match s.iat with
       | none => s.err .bcOutside
@@ -178,23 +193,23 @@ def step (s : St) (r : Rec) : St :=
         if ib.entries.isEmpty then s.err .bcOutside
         else
           let ib' := { ib with control := some r }
-          if !ok then { s with iat := some ib' }.err .recInvalid
+          if !v.v1 then { s with iat := some ib' }.err .recInvalid
           else
             let s' := { s with iatBatches := s.iatBatches ++ [ib'], iat := none }
-            if batchOK then s' else s'.err .batchInvalid
-  | .fc ok okAdv _ =>
+            if v.b then s' else s'.err .batchInvalid
+  | .fc _ =>
     if isADV s.batches then
       match s.advControl with
       | some _ => s.err .dupControl
-      | none => let s' := { s with advControl := some r }; if okAdv then s' else s'.err .recInvalid
+      | none => let s' := { s with advControl := some r }; if v.v2 then s' else s'.err .recInvalid
     else
       match s.control with
       | some _ => s.err .dupControl
-      | none => let s' := { s with control := some r }; if ok then s' else s'.err .recInvalid
+      | none => let s' := { s with control := some r }; if v.v1 then s' else s'.err .recInvalid
   | .filler => s
   | .unknown _ => s.err .unknownType
 
-def run (s : St) (rs : List Rec) : St := rs.foldl step s
+def run (s : St) (rs : List (Rec × Bits)) : St := rs.foldl (fun s rv => step s rv.1 rv.2) s
 
 /-- the tail of `Read`: the lingering batch, then the missing header / control checks
 (`allowNoHeader` / `allowNoControl` = `AllowMissingFileHeader` / `AllowMissingFileControl`) -/
@@ -206,8 +221,11 @@ def finish (allowNoHeader allowNoControl : Bool) (s : St) : St :=
   let missing := if isADV s2.batches then s2.advControl.isNone else s2.control.isNone
   if missing && !allowNoControl then s2.err .missingControl else s2
 
-/-- `Reader.Read` on the sequence of 94-column records, default options -/
-def read (rs : List Rec) : St := finish false false (run init rs)
+/-- `Reader.Read` on the sequence of 94-column records with the validation outcomes, default options -/
+def read (rs : List (Rec × Bits)) : St := finish false false (run init rs)
+
+/-- every validation succeeds -/
+def allOK (rs : List Rec) : List (Rec × Bits) := rs.map (·, Bits.all)
 
 /-! ## the Writer's emission of a file tree, record by record (writer.go `Write`, `writeBatch`, `writeIATBatch`) -/
 
